@@ -241,6 +241,14 @@ fn group<T: Tier>(rep: &mut Report) {
             let rb: Basis3<T> = Basis3::from(cq) * Basis3::from(cg);
             eq_mc::<T, 3>(ctx, &key("composition/Basis3"), basis3_arr(lb), of_prod, slack);
             eq_mc::<T, 3>(ctx, &key("composition/Basis3"), basis3_arr(rb), prod_m, slack);
+            // ... composed through the other spellings of a product: by reference, and as an iterator product of values
+            // and of references
+            let (bq, bg) = (Basis3::from(cq), Basis3::from(cg));
+            eq_mc::<T, 3>(ctx, &key("composition/Basis3/by-reference"), basis3_arr(&bq * &bg), prod_m, slack);
+            eq_mc::<T, 3>(ctx, &key("composition/Basis3/iter-product"), basis3_arr([bq, bg].iter().copied().product::<Basis3<T>>()), prod_m, slack);
+            eq_mc::<T, 3>(ctx, &key("composition/Basis3/iter-product-refs"), basis3_arr([bq, bg].iter().product::<Basis3<T>>()), prod_m, slack);
+            eq_mc::<T, 3>(ctx, &key("composition/Matrix3/iter-product-refs"), m3([Matrix3::from(cq), Matrix3::from(cg)].iter().product::<Matrix3<T>>()), prod_m, slack);
+            eq_v::<T, 4>(ctx, &key("composition/Quaternion/iter-product-refs"), qa([cq, cg].iter().product::<Quaternion<T>>()), model::qmul(mq, mg));
             // ... and for Matrix4 (both orders of the two factors)
             let l4: Matrix4<T> = (cq * cg).into();
             let r4: Matrix4<T> = Matrix4::from(cq) * Matrix4::from(cg);
